@@ -281,6 +281,8 @@ class Writer(BaseValidator):
         assert target is not None
 
         super().__init__(cid_or_path)
+        for check in self.cid.check_map.values():
+            check.reset()
 
         data_format = cid_or_path.data_format
         assert self.cid.data_format.is_valid
